@@ -428,13 +428,15 @@ lcm_gcd_exact(To& to, const From1& x, const From2& y, Rounding_Dir dir) {
   To a_x;
   To a_y;
   Result r;
-  r = abs<From1_Policy, From1_Policy>(a_x, x, dir);
+  // If the absolute value of an operand is not representable,
+  // then the lcm is not representable either: `to' gets that result.
+  r = abs<To_Policy, From1_Policy>(a_x, x, dir);
   if (r != V_EQ) {
-    return r;
+    return abs<To_Policy, From1_Policy>(to, x, dir);
   }
-  r = abs<From2_Policy, From2_Policy>(a_y, y, dir);
+  r = abs<To_Policy, From2_Policy>(a_y, y, dir);
   if (r != V_EQ) {
-    return r;
+    return abs<To_Policy, From2_Policy>(to, y, dir);
   }
   To gcd;
   gcd_exact_no_abs<To_Policy, From1_Policy, From2_Policy>(gcd, a_x, a_y);
